@@ -225,6 +225,7 @@ func runRawFuzz(w *World, rs *RunSpec) {
 				}
 				if has("zero-window-update") {
 					rsv.Send(SWin(sid, 0))
+					rsv.Send(SWin(sid, 1)) // (and a tiny one: on a stream without flow control it means nothing)
 				}
 				switch {
 				case has("oversize-chunk"):
@@ -454,7 +455,7 @@ func genClientConversation(c *Chooser, w *World, fc *fuzzCase, rev tunnelpb.Prot
 			if ns, ok := f.Frame.(*tunnelpb.ClientToServer_NewStream); ok {
 				ns.NewStream.InitialWindowSize = Pick(c, "fzwin", uint32(0), uint32(1), uint32(0xFFFFFFFF))
 			} else {
-				f.Frame = &tunnelpb.ClientToServer_WindowUpdate{WindowUpdate: Pick(c, "fzwu", uint32(0), uint32(0xFFFFFFFF), uint32(0x80000000))}
+				f.Frame = &tunnelpb.ClientToServer_WindowUpdate{WindowUpdate: Pick(c, "fzwu", uint32(0), uint32(0xFFFFFFFF), uint32(0x80000000), uint32(1), uint32(2))}
 			}
 			frames[i] = f
 		case 11:
